@@ -281,10 +281,11 @@ package channel
 // errsAtHead: ghost snapshot of the number of errors handed over so far, taken at the top of every iteration
 //@ ghost errsAtHead int
 //@ chanmode Channel.Errs count
-//@ func (*Channel).read [C06 C16]
+//@ func (*Channel).read [C06 C16 C01]
 //@   maintains RI(c.Q)
 //@   requires c.Errs != c.Q.depthChan
-//@   modifies c.readLoopExited, c.Q.queue, c.Q.depth, chan(c.Q.depthChan), chan(c.Errs), errsAtHead, alloc()
+//@   modifies c.readLoopExited, c.Q.queue, c.Q.depth, chan(c.Q.depthChan), chan(c.Errs), errsAtHead, chunk, alloc()
+//@   at call Enqueue#1 assert [C01] #what-is-queued-is-the-chunk-without-carriage-returns-and-escape-sequences arg0 == (contains(replaceAll(chunk, "\r", ""), "\x1b") ? stripANSI(replaceAll(chunk, "\r", "")) : replaceAll(chunk, "\r", ""))
 //@   loop 1 invariant RI(c.Q) && c.Errs != c.Q.depthChan
 //@   loop 1 set errsAtHead = chlen(c.Errs)
 //@   ensures #exit-is-recorded c.readLoopExited
